@@ -774,7 +774,20 @@ def argsort(a, *args, **kw):
     l = _flat(a)
     if not any(isinstance(v, S) for v in l):
         return ndarray(_np.argsort(_np.array([float(v) if False else v for v in l], dtype=object), kind='stable').astype(_np.int64), _raw=True)
-    idx = sorted(range(len(l)), key=lambda i: l[i])     # stable; forks on symbolic comparisons
+    # NumPy's default sort is not stable (vectorised quicksort): the order of equal keys is unspecified.
+    # Model: a comparator that forks three ways and resolves a tie by a free choice.
+    import functools
+
+    def cmp(i, j):
+        a, b = l[i], l[j]
+        k = core.CTX.choose([a < b, a > b, a == b])
+        if k == 0:
+            return -1
+        if k == 1:
+            return 1
+        core.CTX.tie_count = getattr(core.CTX, 'tie_count', 0) + 1
+        return -1 if bool(core.CTX.var('tie!%d' % core.CTX.tie_count) >= 0) else 1
+    idx = sorted(range(len(l)), key=functools.cmp_to_key(cmp))
     return ndarray(_np.array(idx, dtype=_np.int64), _raw=True)
 
 
